@@ -180,7 +180,10 @@ def specC08 (c : Cfg) (init : State) (steps : List (Op × StepObs)) : Nat × Opt
         | .srcSet s i _ => if ok then failed else (s, i) :: failed
         | _ => failed
       let hard : Option String :=
-        (match op with
+        (match o.err with
+          | some e => if e.startsWith "other:" then some s!"the operation raised {e.drop 6}" else none
+          | none => none)
+        <|> (match op with
           | .srcSet s i v =>
             (if ((post.src[s]?).bind (·[i]?)) != some v then some "the source does not hold the assigned value" else none)
             <|> (if ok then checkSrcStep c pre post (s, i) o.log else none)
@@ -314,10 +317,14 @@ def specC02 (c : Cfg) (init : State) (steps : List (Op × StepObs)) (twin : List
         | _, _ => pre.own
       let owned : Option String :=
         if o.st.own != ownExp then
-          some "finding:rejected-class-assignment-copies-inherited-parameter: a rejected class-level assignment left a copy of the inherited Parameter in the subclass (it no longer follows its ancestor)"
+          some "a rejected class-level assignment left a copy of the inherited Parameter in the subclass (it no longer follows its ancestor)"
         else none
-      match direct <|> idle <|> vsTwin <|> owned with
-      | some why => (k, some (if why.startsWith "finding:" then why else s!"step {n}: {why}"))
+      let unexpected : Option String :=
+        match o.err with
+        | some e => if e.startsWith "other:" then some s!"the operation raised {e.drop 6}: only ValueError / TypeError reject an assignment" else none
+        | none => none
+      match unexpected <|> direct <|> idle <|> vsTwin <|> owned with
+      | some why => (k, some s!"step {n}: {why}")
       | none => go o.st rest trest (n + 1) (if rej then k + 1 else k)
     | _ :: _, [] => (k, some "twin run is shorter than the run")
   go init steps twin 0 0
